@@ -8,6 +8,10 @@ package main
 //      observation.Handler and Observation, either over a udp/client.Conn on an
 //      in-memory session (datagrams injected with Conn.Process, written datagrams read
 //      from the session) or by calling Handler.Handle directly with a fake client.
+//      Cancel is driven with an answered deregistration (op C) and with a deregistration
+//      exchange that fails (op X: context cancelled before / after the request is on the
+//      wire or acknowledged, write error);
+// (iii) wire-level histories with block-wise notifications: harness/c08bw.go.
 //
 // Time is "coarse virtual": before a message is injected the harness moves the
 // lastEvent stamp of every observation it holds back by the virtual time that passed
@@ -54,7 +58,7 @@ const (
 // ---------- scripts ----------
 
 type c8Op struct {
-	kind   byte // 'R' register, 'M' message from the peer, 'C' cancel
+	kind   byte // 'R' register, 'M' message from the peer, 'C' cancel, 'X' cancel whose deregistration exchange fails
 	tok    []byte
 	piggy  bool   // R: first response is piggybacked on the ACK of the request (otherwise the request is ACKed at once)
 	code   int    // M: code; C: code of the answer to the deregistration
@@ -63,17 +67,32 @@ type c8Op struct {
 	con    bool   // M: confirmable
 	dt     int64  // M: virtual milliseconds since the previous message
 	tag    int    // M: payload tag
-	id     int    // C: registration
+	id     int    // C, X: registration
+	// W (message from the peer in a block-wise history, harness/c08bw.go):
+	fref  int    // >= 0: the token is the one drawn for the fref-th block-wise transfer opened in this run; -1: tok
+	etag  []byte // ETag option (nil = none)
+	hasB2 bool   // Block2 option: szx, num, more
+	szx   int
+	num   int
+	more  bool
+	plen  int  // payload length (0 = none, otherwise >= 2: tag + filler)
+	typ   byte // 'n' NON, 'c' CON, 'a' ACK of the last GET written under this token (NON when there is none)
+	how   byte // X: 'c' context cancelled after the request was written, 'a' same after the request was ACKed (empty ACK),
+	//               'e' context already cancelled when Cancel is called, 'w' the write of the request fails
 }
 
 type c8Script struct {
 	wire bool
 	bw   bool
 	tcp  bool // wire over a tcp/client.Conn on a net.Pipe instead of the datagram connection
+	bn   bool // block-wise history ("bhist", harness/c08bw.go): wire + bw, messages are W ops
 	ops  []c8Op
 }
 
 func (s c8Script) String() string {
+	if s.bn {
+		return c8BString(s)
+	}
 	var sb strings.Builder
 	m := "d"
 	if s.wire {
@@ -106,6 +125,8 @@ func (s c8Script) String() string {
 			fmt.Fprintf(&sb, " M%s/%d/%s/%s/%d/%d", hex.EncodeToString(o.tok), o.code, ob, t, o.dt, o.tag)
 		case 'C':
 			fmt.Fprintf(&sb, " C%d/%d", o.id, o.code)
+		case 'X':
+			fmt.Fprintf(&sb, " X%d/%c", o.id, o.how)
 		}
 	}
 	return sb.String()
@@ -140,6 +161,11 @@ func parseC8Script(s string) (c8Script, error) {
 			sc.ops = append(sc.ops, o)
 		case 'C':
 			sc.ops = append(sc.ops, c8Op{kind: 'C', id: atoi(p[0]), code: atoi(p[1])})
+		case 'X':
+			if len(p) != 2 || len(p[1]) != 1 {
+				return sc, fmt.Errorf("bad failing-cancel op %q", w)
+			}
+			sc.ops = append(sc.ops, c8Op{kind: 'X', id: atoi(p[0]), how: p[1][0]})
 		default:
 			return sc, fmt.Errorf("bad op %q", w)
 		}
@@ -153,7 +179,7 @@ func (s c8Script) gapsOK() bool {
 	var ts []int64
 	t := int64(0)
 	for _, o := range s.ops {
-		if o.kind == 'M' {
+		if o.kind == 'M' || o.kind == 'W' {
 			t += o.dt
 			ts = append(ts, t)
 		}
@@ -177,6 +203,7 @@ type c8Session struct {
 	out    chan []byte
 	mu     sync.Mutex
 	onCl   []func()
+	fail   bool // WriteMessage reports an error (nothing is written)
 }
 
 func newC8Session() *c8Session {
@@ -203,7 +230,18 @@ func (s *c8Session) LocalAddr() net.Addr {
 	return &net.UDPAddr{IP: net.IPv4(127, 0, 0, 1), Port: 40000}
 }
 func (s *c8Session) NetConn() net.Conn { return nil }
+func (s *c8Session) setFail(v bool) {
+	s.mu.Lock()
+	s.fail = v
+	s.mu.Unlock()
+}
 func (s *c8Session) WriteMessage(req *pool.Message) error {
+	s.mu.Lock()
+	fail := s.fail
+	s.mu.Unlock()
+	if fail {
+		return errors.New("network is unreachable")
+	}
 	data, err := req.MarshalWithEncoder(coder.DefaultCoder)
 	if err != nil {
 		return err
@@ -286,12 +324,29 @@ type c8Run struct {
 	fake       *c8Fake
 	hd         *observation.Handler[*c8Fake]
 	cancelCode int
+	doErr      error // direct mode: the deregistration exchange fails with this error
 	doCalls    int
 	bad        string // set when the implementation hung / panicked
 	features   map[string]bool
+	// block-wise histories
+	errs    int             // calls of the connection's / block-wise layer's error callback
+	fresh   [][]byte        // tokens drawn by the block-wise layer, in the order they showed on the wire
+	lastGet map[string]int32 // token -> message ID of the last confirmable GET written under it
 }
 
 func c8Bytes(b []byte) string { return coqBytes(b) }
+
+// tokStr: a token as Coq text; a token drawn by the block-wise layer (random) is replaced by its canonical name
+func (r *c8Run) tokStr(t []byte) string {
+	r.mu.Lock()
+	defer r.mu.Unlock()
+	for k, f := range r.fresh {
+		if bytes.Equal(f, t) {
+			return c8Bytes(c8Canon(k))
+		}
+	}
+	return c8Bytes(t)
+}
 
 func (r *c8Run) addLog(s string) {
 	r.mu.Lock()
@@ -321,12 +376,12 @@ func (r *c8Run) callback(id int) func(*pool.Message) {
 		if v, err := m.Observe(); err == nil {
 			sq = fmt.Sprintf("(Some %d)", v)
 		}
-		r.addLog(fmt.Sprintf("Cb %d %s %s %d", id, c8Bytes(m.Token()), sq, c8Tag(m)))
+		r.addLog(fmt.Sprintf("Cb %d %s %s %d", id, r.tokStr(m.Token()), sq, c8Tag(m)))
 	}
 }
 
 func (r *c8Run) logNext(m *pool.Message) {
-	r.addLog(fmt.Sprintf("Nx %s %d", c8Bytes(m.Token()), c8Tag(m)))
+	r.addLog(fmt.Sprintf("Nx %s %d", r.tokStr(m.Token()), c8Tag(m)))
 }
 
 func (r *c8Run) setup() {
@@ -339,6 +394,9 @@ func (r *c8Run) setup() {
 			func(_ *responsewriter.ResponseWriter[*c8Fake], m *pool.Message) { r.logNext(m) },
 			func(req *pool.Message) (*pool.Message, error) {
 				r.doCalls++
+				if r.doErr != nil {
+					return nil, r.doErr
+				}
 				resp := r.fake.pl.AcquireMessage(req.Context())
 				resp.SetCode(codes.Code(r.cancelCode))
 				resp.SetToken(req.Token())
@@ -355,7 +413,11 @@ func (r *c8Run) setup() {
 	cfg := client.DefaultConfig
 	cfg.Handler = func(_ *responsewriter.ResponseWriter[*client.Conn], m *pool.Message) { r.logNext(m) }
 	cfg.GetToken = r.getToken
-	cfg.Errors = func(error) {}
+	cfg.Errors = func(error) {
+		r.mu.Lock()
+		r.errs++
+		r.mu.Unlock()
+	}
 	cfg.LimitClientParallelRequests = 0
 	cfg.LimitClientEndpointParallelRequests = 0
 	cfg.TransmissionNStart = 1000
@@ -367,7 +429,7 @@ func (r *c8Run) setup() {
 	var opts []client.Option
 	if r.sc.bw {
 		opts = append(opts, client.WithBlockWise(func(cc *client.Conn) *blockwise.BlockWise[*client.Conn] {
-			return blockwise.New(cc, 3*time.Second, cfg.Errors, func(token message.Token) (*pool.Message, bool) {
+			return blockwise.New(cc, time.Hour, cfg.Errors, func(token message.Token) (*pool.Message, bool) {
 				return cc.GetObservationRequest(token)
 			})
 		}))
@@ -821,6 +883,108 @@ func (r *c8Run) doCancel(op c8Op) ([]string, bool) {
 	return append(extra, fmt.Sprintf("CanRet %d %d", op.id, cls)), true
 }
 
+// c8CanClass: how Cancel returned. nil: 0 nothing was sent / 1 deregistered; error: 2 the answer had an
+// unexpected code / 3 the exchange failed
+func c8CanClass(err error, sent bool) int {
+	switch {
+	case err == nil && !sent:
+		return 0
+	case err == nil:
+		return 1
+	case strings.Contains(err.Error(), "unexpected return code"):
+		return 2
+	}
+	return 3
+}
+
+// doCancelErr: Cancel whose deregistration request gets no answer: the exchange ends with an error
+// (context cancelled while waiting for the ACK / for the response, context done beforehand, write error).
+// Every step waits for a witness: the request on the wire, the return of Cancel.
+func (r *c8Run) doCancelErr(op c8Op) ([]string, bool) {
+	if op.id < 0 || op.id >= len(r.regs) || r.regs[op.id].obs == nil {
+		return nil, false
+	}
+	g := r.regs[op.id]
+	ctx, cancel := context.WithCancel(context.Background())
+	defer cancel()
+	if !r.sc.wire {
+		switch op.how {
+		case 'w':
+			r.doErr = errors.New("cannot write request: network is unreachable")
+		case 'e':
+			r.doErr = context.Canceled
+		default:
+			r.doErr = context.DeadlineExceeded
+		}
+		before := r.doCalls
+		err := g.obs.Cancel(ctx)
+		r.doErr = nil
+		return []string{fmt.Sprintf("CanRet %d %d", op.id, c8CanClass(err, r.doCalls > before))}, true
+	}
+	how := op.how
+	if how == 'w' && r.sc.tcp {
+		how = 'c' // a write on the pipe cannot be made to fail without closing the connection
+	}
+	switch how {
+	case 'e':
+		cancel()
+	case 'w':
+		r.sess.setFail(true)
+		defer r.sess.setFail(false)
+	}
+	cdone := make(chan error, 1)
+	go func() {
+		defer func() {
+			if recover() != nil {
+				cdone <- errors.New("panic")
+			}
+		}()
+		cdone <- g.obs.Cancel(ctx)
+	}()
+	sent := false
+	var err error
+	returned := false
+	if how == 'c' || how == 'a' {
+		select {
+		case d := <-r.out:
+			sent = true
+			req, e := r.decode(d)
+			if e != nil {
+				r.bad = "deregistration does not decode"
+				return nil, true
+			}
+			ob, e := req.Observe()
+			if e != nil || ob != 1 || !bytes.Equal(req.Token(), g.tok) || req.Code() != codes.GET {
+				r.bad = "deregistration is not GET+Observe:1 with the observation's token"
+			}
+			if how == 'a' && !r.sc.tcp {
+				// the request is acknowledged (a separate response is promised) but no response follows
+				r.inject(r.frame(message.Acknowledgement, req.MessageID(), nil, 0, false, nil, 0, false))
+			}
+			cancel()
+		case err = <-cdone:
+			returned = true
+		case <-time.After(c8Timeout):
+			r.bad = "Cancel neither wrote a request nor returned"
+			return nil, true
+		}
+	}
+	if !returned {
+		select {
+		case err = <-cdone:
+		case <-time.After(c8Timeout):
+			r.bad = "Cancel did not return although its exchange had failed"
+			return nil, true
+		}
+	}
+	if how == 'e' || how == 'w' {
+		sent = err != nil // an error stands for a failed exchange; nil can only mean that nothing had to be done
+	}
+	r.drain()
+	extra := r.takeLog()
+	return append(extra, fmt.Sprintf("CanRet %d %d", op.id, c8CanClass(err, sent))), true
+}
+
 func c8ObsCoq(op c8Op) string {
 	if !op.hasObs {
 		return "None"
@@ -865,6 +1029,13 @@ func runC8Script(sc c8Script) (string, []string, bool, time.Duration, string) {
 				continue
 			}
 			evs = append(evs, fmt.Sprintf("ECancel %d %d", op.id, op.code))
+		case 'X':
+			var ok bool
+			o, ok = r.doCancelErr(op)
+			if !ok {
+				continue
+			}
+			evs = append(evs, fmt.Sprintf("ECancelErr %d", op.id))
 		}
 		if r.bad != "" {
 			break
@@ -1064,6 +1235,8 @@ func (b *c8B) note(tok []byte, seq uint32, dt int64) {
 
 func (b *c8B) cancel(id int, code int) { b.ops = append(b.ops, c8Op{kind: 'C', id: id, code: code}) }
 
+func (b *c8B) cancelErr(id int, how byte) { b.ops = append(b.ops, c8Op{kind: 'X', id: id, how: how}) }
+
 var c8Dts = []int64{0, 0, 0, 1, 20, 500, 1000, 5000, 60000, 127000, 127700, 128300, 129000, 200000, 300000}
 
 func (b *c8B) dt() int64 {
@@ -1135,7 +1308,11 @@ func c8GenSingle(rng *Rng) []c8Op {
 	}
 	for i, v := range st {
 		if i == cancelAt {
-			b.cancel(id, []int{69, 67, 132}[rng.Intn(3)])
+			if rng.Chance(25) {
+				b.cancelErr(id, []byte{'c', 'a', 'e', 'w'}[rng.Intn(4)])
+			} else {
+				b.cancel(id, []int{69, 67, 132}[rng.Intn(3)])
+			}
 		}
 		switch {
 		case rng.Chance(4):
@@ -1174,7 +1351,11 @@ func c8GenMulti(rng *Rng) []c8Op {
 			ids[i] = b.reg(toks[i], rng.Bool())
 			pendingFirst[i] = true
 		case rng.Chance(8):
-			b.cancel(ids[i], []int{69, 67, 160}[rng.Intn(3)])
+			if rng.Chance(25) {
+				b.cancelErr(ids[i], []byte{'c', 'a', 'e', 'w'}[rng.Intn(4)])
+			} else {
+				b.cancel(ids[i], []int{69, 67, 160}[rng.Intn(3)])
+			}
 			if rng.Chance(50) {
 				ids[i] = -1 // register the same token again later
 			}
@@ -1238,6 +1419,59 @@ func c8GenCancelAt(rng *Rng, pos int, code int, twice bool) []c8Op {
 		b.cancel(id, code)
 	}
 	b.note(tok, 40, 300000)
+	return b.ops
+}
+
+// Cancel whose deregistration is never answered (the server did not get it and keeps notifying):
+// Cancel returns an error, and nothing that arrives afterwards may reach the callback.
+func c8GenCancelFail(rng *Rng, how byte, variant int) []c8Op {
+	b := &c8B{rng: rng}
+	tok := c8Tok(rng, 1+rng.Intn(8))
+	switch variant {
+	case 0: // in the middle of a stream; a second Cancel has nothing left to do
+		id := b.reg(tok, rng.Bool())
+		b.note(tok, 20, 0)
+		b.note(tok, 21, 0)
+		b.cancelErr(id, how)
+		b.note(tok, 22, 0)
+		b.note(tok, 23, 1000)
+		b.cancel(id, 69)
+		b.note(tok, 24, 0)
+		b.note(tok, 25, 200000)
+	case 1: // right after the registration completed; retried with the same failure
+		id := b.reg(tok, rng.Bool())
+		b.note(tok, 7, 0)
+		b.cancelErr(id, how)
+		b.note(tok, 8, 0)
+		b.cancelErr(id, how)
+		b.note(tok, 9, 0)
+		b.raw(tok, 69, false, nil, 0) // without Observe option
+	case 2: // two observations, one of them is cancelled that way
+		t2 := c8Tok(rng, 1+rng.Intn(8))
+		a := b.reg(tok, false)
+		c := b.reg(t2, true)
+		b.note(tok, 1, 0)
+		b.note(t2, 1, 0)
+		b.note(tok, 2, 0)
+		b.cancelErr(a, how)
+		b.note(tok, 3, 0)
+		b.note(t2, 2, 0)
+		b.note(tok, 4, 0)
+		b.cancel(c, 69)
+		b.note(t2, 3, 0)
+		b.note(tok, 5, 0)
+	default: // the token is registered again afterwards: only the new callback is served
+		a := b.reg(tok, false)
+		b.note(tok, 100, 0)
+		b.cancelErr(a, how)
+		b.note(tok, 101, 0)
+		c := b.reg(tok, false)
+		b.note(tok, 50, 0)
+		b.note(tok, 51, 0)
+		b.cancelErr(c, how)
+		b.note(tok, 52, 0)
+		b.cancel(a, 69)
+	}
 	return b.ops
 }
 
@@ -1398,16 +1632,17 @@ func c8GenScratch() []c8Op {
 func runC08(a runArgs) error {
 	e := NewEmitter("C08", "Observe.Run")
 	e.ShardSize = 120
-	e.Preamble = "From GoCoap Require Import Observe.Model."
-	e.Rule = "Tab = 64 values of ValidSequenceNumber(old, new0..new0+63, last, now) as a bit table (distinct = distinct table; non-trivial = inside the 24-bit domain of RFC 7641). Hist = one history of register/message/cancel events run on the real Handler/Observation (distinct = distinct script; non-trivial = at least one message reached a callback and at least one did not)."
+	e.Preamble = "From GoCoap Require Import Observe.Model Observe.BwModel."
+	e.Rule = "Tab = 64 values of ValidSequenceNumber(old, new0..new0+63, last, now) as a bit table (distinct = distinct table; non-trivial = inside the 24-bit domain of RFC 7641). Hist = one history of register/message/cancel events run on the real Handler/Observation (distinct = distinct script; non-trivial = at least one message reached a callback and at least one did not). BHist = one wire-level history on a connection with block-wise transfer, notifications may be block-wise (distinct = distinct script; non-trivial = a block-wise transfer was opened, at least one message reached a callback and at least one did not)."
 	rng := NewRng(a.seed)
 	thorough := a.tier == "thorough"
 	discarded := 0
+	badRetries := 0
 	addScript := func(sc c8Script, fam string) {
 		if !sc.gapsOK() {
 			// move the clock of every message a little instead of dropping the script
 			for i := range sc.ops {
-				if sc.ops[i].kind == 'M' && sc.ops[i].dt > 0 {
+				if (sc.ops[i].kind == 'M' || sc.ops[i].kind == 'W') && sc.ops[i].dt > 0 {
 					sc.ops[i].dt += 7
 				}
 			}
@@ -1417,8 +1652,17 @@ func runC08(a runArgs) error {
 			}
 		}
 		for try := 0; try < 6; try++ {
-			text, feats, nontriv, el, bad := runC8Script(sc)
+			run := runC8Script
+			if sc.bn {
+				run = runC8BScript
+			}
+			text, feats, nontriv, el, bad := run(sc)
 			if el > 200*time.Millisecond && bad == "" && try < 5 {
+				continue
+			}
+			if bad != "" && try < 2 && badRetries < 20 {
+				// a watchdog fired: on a loaded machine that can be slowness; a real hang shows again
+				badRetries++
 				continue
 			}
 			if el > 200*time.Millisecond && bad == "" {
@@ -1446,6 +1690,12 @@ func runC08(a runArgs) error {
 			}
 		case "hist":
 			sc, err := parseC8Script(a.only)
+			if err != nil {
+				return err
+			}
+			addScript(sc, "replay")
+		case "bhist":
+			sc, err := parseC8BScript(a.only)
 			if err != nil {
 				return err
 			}
@@ -1482,6 +1732,11 @@ func runC08(a runArgs) error {
 	for v := 0; v < 7; v++ {
 		all(c8GenDupToken(rng.Fork(), v), "same-token")
 	}
+	for _, how := range []byte{'c', 'a', 'e', 'w'} {
+		for v := 0; v < 4; v++ {
+			all(c8GenCancelFail(rng.Fork(), how, v), "cancel-exchange-fails")
+		}
+	}
 	for v := 0; v < 3; v++ {
 		all(c8GenCollision(rng.Fork(), v), "token-hash-collision")
 	}
@@ -1501,6 +1756,18 @@ func runC08(a runArgs) error {
 	for i := 0; i < nU; i++ {
 		addScript(c8Script{wire: false, ops: c8GenUint32(rng.Fork())}, "uint32-direct")
 	}
+	// block-wise notifications (harness/c08bw.go)
+	for v := 0; v < 14; v++ {
+		addScript(c8Script{wire: true, bw: true, bn: true, ops: c8GenBwFixed(rng.Fork(), v)}, "blockwise-notification-scenarios")
+	}
+	nB := 150
+	if thorough {
+		nB = 2500
+	}
+	for i := 0; i < nB; i++ {
+		addScript(c8Script{wire: true, bw: true, bn: true, ops: c8GenBwRandom(rng.Fork())}, "blockwise-notifications")
+	}
 	e.Extra["discarded_scripts"] = discarded
+	e.Extra["watchdog_retries"] = badRetries
 	return e.Flush(a.out)
 }
